@@ -6,6 +6,7 @@ import (
 	"os"
 	"runtime/debug"
 	"sort"
+	"strconv"
 	"strings"
 	"sync"
 	"time"
@@ -120,7 +121,7 @@ func Load(repoDir string, patterns []string, overlay map[string][]byte, tags str
 		MaxDepth: 120, MaxSteps: 4_000_000, MaxArray: 1 << 17, MaxIte: 512, LoopBound: 300, MaxLen: 64,
 		SolverKind: "z3-new", TimeoutMs: 10000, Workers: 8, MaxPaths: 200000,
 		SkipInit:   map[string]bool{},
-		LazySlices: true, SamplesPerHarness: 2, PathTimeout: 120 * time.Second,
+		LazySlices: true, SamplesPerHarness: samplesPerHarness(), PathTimeout: 120 * time.Second,
 		intrinsics: map[string]intrinsicFn{},
 		opaquePkgs: map[string]string{},
 	}
@@ -635,4 +636,13 @@ func (e *Engine) ReplayConcrete(fn *ssa.Function, name string, model map[string]
 		keys[k] = true
 	}
 	return keys, hr.Paths == 1 && !hr.replayMissing
+}
+
+// samplesPerHarness: sampled paths per harness for translator validation
+// (GOSMT_SAMPLES overrides the default of 2 when probing the os model).
+func samplesPerHarness() int {
+	if v, err := strconv.Atoi(os.Getenv("GOSMT_SAMPLES")); err == nil && v >= 0 {
+		return v
+	}
+	return 2
 }
